@@ -6,6 +6,8 @@ R05a  codec agreement: each URL-based protocol percent-encodes local selectors w
 R05b  prefix agreement: the WAP prefix added when rendering is the configured value the
       request test strips; the Gemini query prefix is one class constant on both sides
 R05c  virtual selectors: the separator genargsselector() emits is one Virtual.__init__ splits on
+R05e  the real part Virtual.__init__ settles on never contains a separator (so real|args, as
+      built by genargsselector(), is cut where it was joined)
 R05d  children come from the chain: each child selector is selectorbase + "/" + name and
       its entry comes from getHandler() on that same string; mailbox message selectors
       rendered by the folder handlers match the message handlers' pattern
@@ -49,12 +51,169 @@ def encoder_codec(call, func):
     return ((enc or "utf-8").lower().replace("-", ""), err or "strict", safe)
 
 
+def _absent_fact(node, truthv, sep, subject="self.selector"):
+    """Does deciding `node` as `truthv` establish that `sep` does not occur in the selector?"""
+    if isinstance(node, ast.UnaryOp) and isinstance(node.op, ast.Not):
+        return _absent_fact(node.operand, not truthv, sep, subject)
+    if isinstance(node, ast.Compare) and len(node.ops) == 1:
+        l, op, r = node.left, node.ops[0], node.comparators[0]
+        if isinstance(l, ast.Constant) and l.value == sep and norm(r) == subject:
+            return (isinstance(op, ast.In) and not truthv) or (isinstance(op, ast.NotIn) and truthv)
+        if isinstance(l, ast.Call) and isinstance(l.func, ast.Attribute) and l.func.attr == "find" and norm(l.func.value) == subject \
+                and l.args and isinstance(l.args[0], ast.Constant) and l.args[0].value == sep:
+            if isinstance(r, ast.UnaryOp) and isinstance(r.op, ast.USub) and isinstance(r.operand, ast.Constant) and r.operand.value == 1:
+                return (isinstance(op, ast.Eq) and truthv) or (isinstance(op, ast.NotEq) and not truthv)
+            if isinstance(r, ast.Constant) and r.value == 0:
+                return (isinstance(op, ast.Lt) and truthv) or (isinstance(op, ast.GtE) and not truthv)
+    return False
+
+
+def _prefix_cut(value, defs, seps, subject="self.selector"):
+    """Is `value` the part of the selector before an occurrence of one of `seps`?"""
+    v = value
+    if isinstance(v, ast.Name) and defs and v.id in defs:
+        v = defs[v.id]
+    # selector[:i] / selector[0:i] with i = selector.index(sep)/find(sep)
+    if isinstance(v, ast.Subscript) and norm(v.value) == subject and isinstance(v.slice, ast.Slice) and v.slice.step is None \
+            and (v.slice.lower is None or (isinstance(v.slice.lower, ast.Constant) and v.slice.lower.value == 0)) and v.slice.upper is not None:
+        u = v.slice.upper
+        if isinstance(u, ast.Name):
+            return True  # index variable: its definitions are checked by the caller (all assignments are index()/find() of a separator)
+        if isinstance(u, ast.Call) and isinstance(u.func, ast.Attribute) and u.func.attr in ("index", "find") and norm(u.func.value) == subject:
+            return bool(u.args) and isinstance(u.args[0], ast.Constant) and u.args[0].value in seps
+    # selector.partition(sep)[0] / selector.split(sep, 1)[0]
+    if isinstance(v, ast.Subscript) and isinstance(v.slice, ast.Constant) and v.slice.value == 0 and isinstance(v.value, ast.Call) \
+            and isinstance(v.value.func, ast.Attribute) and v.value.func.attr in ("partition", "split") and norm(v.value.func.value) == subject:
+        a = v.value.args
+        return bool(a) and isinstance(a[0], ast.Constant) and a[0].value in seps
+    return False
+
+
+def _virtual_structural(ctx, virt, seps):
+    """genargsselector() emits real + sep + args, and the constructor cuts a requested selector at a
+    separator: the two agree only if the `real` part the constructor settles on never contains a
+    separator itself.  On every path of Virtual.__init__: selectorreal is a cut of the selector at a
+    separator, or the whole selector on a path that has established no separator occurs in it."""
+    from ..paths import Walker
+
+    prog = ctx.prog
+    init = virt.methods["__init__"]
+    seps = {x for x in seps if isinstance(x, str)} or {"?", "|"}
+
+    def inline(f, t, d):
+        return d < 3 and f.cls is virt and f.name != "__init__"
+
+    w = Walker(prog, ctx.resolver, inline=inline, merge_loops=True)
+    problems = set()
+    n_paths = 0
+    # index variables: every assignment is selector.index/find(<separator>)
+    for n in ast.walk(init.node):
+        if isinstance(n, ast.Assign) and len(n.targets) == 1 and isinstance(n.targets[0], ast.Name):
+            used_as_cut = any(isinstance(x, ast.Subscript) and isinstance(x.slice, ast.Slice) and x.slice.upper is not None
+                              and isinstance(x.slice.upper, ast.Name) and x.slice.upper.id == n.targets[0].id and norm(x.value) == "self.selector"
+                              for m in ast.walk(init.node) if isinstance(m, ast.Assign) and any(norm(t) == "self.selectorreal" for t in m.targets)
+                              for x in ast.walk(m.value))
+            if used_as_cut:
+                v = n.value
+                okv = isinstance(v, ast.Call) and isinstance(v.func, ast.Attribute) and v.func.attr in ("index", "find") \
+                    and norm(v.func.value) == "self.selector" and v.args and isinstance(v.args[0], ast.Constant) and v.args[0].value in seps
+                if not okv and not (isinstance(v, ast.Call) and (dotted(v.func) or "") == "min"):
+                    problems.add(f"the cut position `{norm(n)[:50]}` is not the position of a separator")
+    for p in w.run(init, virt):
+        if p.kind == "raise":
+            continue
+        n_paths += 1
+        last = None
+        absent = set()
+        for e in p.events:
+            if e.kind == "test" and e.extra in (True, False):
+                for sp in seps:
+                    if _absent_fact(e.node, e.extra, sp):
+                        absent.add(sp)
+            if e.kind == "assign" and e.target == "self.selectorreal" and isinstance(e.node, ast.Assign):
+                last = (e, set(absent))
+        if last is None:
+            problems.add("a constructor path leaves selectorreal unset")
+            continue
+        e, known_absent = last
+        val = e.node.value
+        if norm(val) == "self.selector" or (isinstance(val, ast.Name) and e.defs and val.id in e.defs and norm(e.defs[val.id]) == "self.selector"):
+            missing = sorted(seps - known_absent)
+            if missing:
+                problems.add(f"the whole selector is taken as the real part on a path that has not excluded {missing} from it: "
+                             "the item links genargsselector() builds from it are cut at that character when they are requested")
+        elif not _prefix_cut(val, e.defs, seps):
+            problems.add(f"selectorreal = `{norm(val)[:50]}` is neither the whole selector nor a cut at a separator")
+    if not n_paths:
+        problems.add("no completing constructor path")
+    return problems
+
+
+REALS = ["/box", "/dir/in.box", "/a b", "/caf\udcc3\udca9.mbox", "/"]
+ARGS = ["/MBOX-MESSAGE/1", "/MAILDIR-MESSAGE/12", "x"]
+
+
+def virtual_roundtrip(ctx, rep, rule, virt, seps, reals=None, argsets=None, what=None):
+    """genargsselector(args) of an object whose real selector is R must be parsed back by the constructor
+    into (R, args).  Both methods are evaluated by the path walker on representative constants (R without
+    separators, the argument strings the folder handlers emit); every path the constructor can take for
+    that input has to give the same answer.  Where the walker cannot fold a construct to a constant the
+    structural form of the rule decides instead."""
+    from ..paths import Const, Walker
+
+    prog = ctx.prog
+    init = virt.methods["__init__"]
+    gen = prog.resolve_method(virt, "genargsselector")
+    problems = set()
+    undetermined = False
+
+    def inline(f, t, d):
+        return d < 3 and f.cls is virt and f.name != "__init__"
+
+    n_cases = 0
+    for R in (reals or REALS):
+        # no separator: the whole selector is the real part
+        cases = [(R, R, "")]
+        for A in (argsets or ARGS):
+            joined = None
+            if gen is not None:
+                wg = Walker(prog, ctx.resolver, assumptions={"self.selectorreal": Const(R)}, sticky={"self.selectorreal"}, inline=inline)
+                outs = {p.value.value if (p.kind == "return" and p.value.kind == "const") else None
+                        for p in wg.run(gen, virt, env={gen.params[1] if len(gen.params) > 1 else "args": Const(A)})}
+                if len(outs) == 1 and None not in outs:
+                    joined = next(iter(outs))
+            if joined is None:
+                undetermined = True
+                continue
+            cases.append((joined, R, A))
+        for word, want_real, want_args in cases:
+            n_cases += 1
+            w = Walker(prog, ctx.resolver, assumptions={"self.selector": Const(word)}, sticky={"self.selector"}, inline=inline)
+            for p in w.run(init, virt):
+                if p.kind == "raise":
+                    problems.add(f"the constructor can fail for the selector {word!r}")
+                    continue
+                real, args = p.state.facts.get("self.selectorreal"), p.state.facts.get("self.selectorargs")
+                if real is None or args is None or real.kind != "const" or args.kind != "const":
+                    undetermined = True
+                    continue
+                if (real.value, args.value) != (want_real, want_args):
+                    how = "" if word == want_real else f" (what genargsselector() gives for {want_real!r} and {want_args!r})"
+                    problems.add(f"the selector {word!r}{how} can be taken apart as real={real.value!r} args={args.value!r} "
+                                 f"instead of {want_real!r} / {want_args!r}: the item links a folder listing advertises would not be found")
+    if undetermined and not problems:
+        problems |= _virtual_structural(ctx, virt, seps)
+    rep.add(rule, f"{init.qualname}: {what or 'parses genargsselector() output back into (real, args)'} [{n_cases} cases]", not problems, ctx.where(init),
+            "; ".join(sorted(problems)[:4]), key=f"{rule}|virtual-init")
+
+
 def check(ctx, rep):
     prog = ctx.prog
     eff = Effects(prog, ctx.resolver)
     rep.rule("R05a", "selector encoder (renderobjinfo) and decoder (handle) of each URL-based protocol use the same codec; one decoding layer; safe chars exclude separators", floor=3)
     rep.rule("R05b", "WAP prefix: same configuration value rendered and stripped; Gemini query prefix: same class constant", floor=2)
     rep.rule("R05c", "virtual selector separator emitted is one the parser splits on", floor=1)
+    rep.rule("R05e", "virtual selectors round-trip: the real part Virtual.__init__ settles on never contains a separator", floor=1)
     rep.rule("R05d", "child selectors are selectorbase/name resolved through the handler chain; folder and message handlers agree on the argument flag", floor=3)
     pb = ctx.cls("protocols.base.BaseGopherProtocol")
 
@@ -89,15 +248,33 @@ def check(ctx, rep):
             for c, t in hencs:
                 enc_funcs[id(c)] = hf
             encs.extend(hencs)
-            # a quoting helper must quote on every path: no return of something that bypasses the encoder
+            # a quoting helper must quote on every path it takes for a link to this server (no host, no port,
+            # not a URL: selector): no return of something that bypasses the encoder
             from ..facts import expand_ast as _ea
+            from ..paths import FALSY, Walker
 
-            for r in ast.walk(hf.node):
-                if isinstance(r, ast.Return) and r.value is not None:
-                    v = _ea(r.value, hf)
-                    if not any(isinstance(x, ast.Call) and (dotted(x.func) or "").split(".")[-1] in ("quote", "quote_plus", "quote_from_bytes") for x in ast.walk(v)) \
-                            and not (isinstance(v, ast.Constant)):
-                        helper_problems.append(f"{hf.qualname} can return `{norm(r.value)[:40]}` without percent-encoding it: such a selector is advertised raw but decoded when requested")
+            def _local_link(call, target, st):
+                if isinstance(call.func, ast.Attribute) and call.func.attr in ("gethost", "getport") and not call.args:
+                    return FALSY
+                if (dotted(call.func) or "") in ("re.match", "re.search", "re.fullmatch") and call.args \
+                        and isinstance(call.args[0], ast.Constant) and "URL:" in str(call.args[0].value):
+                    return FALSY
+                return None
+
+            wk = Walker(prog, ctx.resolver, call_value=_local_link, merge_loops=True)
+            for pth in wk.run(hf, P):
+                if pth.kind != "return":
+                    continue
+                rets = [e for e in pth.events if e.kind == "return" and e.frame and e.frame[0] is hf]
+                if not rets or not isinstance(rets[-1].node, ast.Return) or rets[-1].node.value is None:
+                    continue
+                r = rets[-1].node
+                v = _ea(r.value, hf, rets[-1].defs) if rets[-1].defs else _ea(r.value, hf)
+                if not any(isinstance(x, ast.Call) and (dotted(x.func) or "").split(".")[-1] in ("quote", "quote_plus", "quote_from_bytes") for x in ast.walk(v)) \
+                        and not (isinstance(v, ast.Constant)):
+                    msg = f"{hf.qualname} can return `{norm(r.value)[:40]}` for a link to this server without percent-encoding it: such a selector is advertised raw but decoded when requested"
+                    if msg not in helper_problems:
+                        helper_problems.append(msg)
         decs = [(c, t) for c, t in eff.calls_of(h, P) if t.kind == "ext" and t.ext in ("urllib.parse.unquote", "urllib.parse.unquote_plus", "urllib.parse.unquote_to_bytes")]
         if not encs:
             continue  # not a URL-based protocol
@@ -205,30 +382,16 @@ def check(ctx, rep):
 
     # ------------------------------------------------------------------ R05c
     virt = ctx.cls("handlers.virtual.Virtual")
-    if virt is None:
+    accepted = set()
+    if virt is None or virt.methods.get("__init__") is None:
         rep.fail("R05c", "Virtual", detail="virtual handler base not found")
+        virt = None
     else:
-        gen = prog.resolve_method(virt, "genargsselector")
-        init = virt.methods.get("__init__")
-        emitted = set()
-        if gen is not None:
-            for r in ast.walk(gen.node):
-                if isinstance(r, ast.Return) and r.value is not None:
-                    for n in ast.walk(r.value):
-                        if isinstance(n, ast.Constant) and isinstance(n.value, str) and n.value:
-                            emitted.add(n.value)
-        accepted = set()
-        if init is not None:
-            for n in ast.walk(init.node):
-                if isinstance(n, ast.Call) and isinstance(n.func, ast.Attribute) and n.func.attr in ("find", "index", "split", "partition") \
-                        and n.args and isinstance(n.args[0], ast.Constant):
-                    accepted.add(n.args[0].value)
-                if isinstance(n, ast.Compare) and isinstance(n.ops[0], ast.In) and isinstance(n.left, ast.Constant):
-                    accepted.add(n.left.value)
-        ok = bool(emitted) and emitted <= accepted and len(emitted) == 1
-        rep.add("R05c", f"separator {sorted(emitted)} is parsed ({sorted(accepted)})", ok, ctx.where(gen or init),
-                "" if ok else f"genargsselector() emits {sorted(emitted)} but Virtual.__init__ splits on {sorted(accepted)}: virtual items listed in folders would not be found",
-                key="R05c|virtual")
+        virtual_roundtrip(ctx, rep, "R05c", virt, {"?", "|"}, reals=REALS[:1], argsets=ARGS[-1:], what="the separator genargsselector() emits is one the constructor splits on")
+
+    # ------------------------------------------------------------------ R05e
+    if virt is not None and virt.methods.get("__init__") is not None:
+        virtual_roundtrip(ctx, rep, "R05e", virt, {"?", "|"})
 
     # ------------------------------------------------------------------ R05d
     dirbase = ctx.cls("handlers.dir.DirHandler")
